@@ -2751,6 +2751,7 @@ class Network:
             subunits = network.units
             for index, i in enumerate(path_tuple):
                 if isa(i, Network) and not network.isdisjoint(i):
+                    self._remove_overlap(network, path_tuple) # Units of the recycle network belong to the subnetwork only
                     i.join_recycle_network(network)
                     self.units.update(subunits)
                     return
